@@ -40,7 +40,7 @@ LEVEL = "exploration"
 RULE = (
     "ASYNC (AsyncTCPNetworkServer / AsyncUDPNetworkServer on the virtual loop): every sequence of <= 4 (thorough 5) calls over "
     "{S=serve_forever, H=shutdown, C=server_close, K=a client connects and sends one request} with <= 2 S, <= 2 H, <= 2 C, <= 1 K, "
-    "x {TCP, UDP} x {1, 2 listeners}; each call is its own task started at a loop-iteration boundary: default = the boundary at which "
+    "x {TCP, UDP} x {1 listener, 2 listeners (<= 4 calls)}; each call is its own task started at a loop-iteration boundary: default = the boundary at which "
     "the previous call has completed (serve_forever: is up; client: answered), deviations = start it at ANY earlier boundary since "
     "the previous call was started (including the very same boundary) or at ANY later boundary until the loop idles; the deviation "
     "bound equals the number of calls, i.e. EVERY call is tried at EVERY boundary (complete for these sequences). "
@@ -49,7 +49,7 @@ RULE = (
     "in the backlog, scheduled by mc/vthreads.py at every lock / event / condition / select / call_soon_threadsafe / thread "
     "start-join-exit point (about 60-90 points per execution): which thread runs first is enumerated freely; every other "
     "non-default decision - a PREEMPTION at any point, or resuming another thread than the canonical one when the running "
-    "thread blocks - costs one deviation; bound 2 (thorough 3 for the two-thread sets and for SHC/SSH/SCC, 2 for four threads); "
+    "thread blocks - costs one deviation; bound 2 (thorough: 3 for the one/two-thread sets and for S+H+C, 2 for four threads SSHC / SHHC); "
     "three-thread sets are also run with the opposite default priority (quick: SHC and SSH only). "
     "distinct_nontrivial = distinct (configuration, results of the calls, final state) among executions with a non-default choice"
 )
@@ -72,7 +72,7 @@ ASSUMPTIONS = [
 ]
 BOUNDS = {
     "quick": "async: sequences <= 4 calls, every call at every boundary; threads: <= 3 threads, deviation bound 2 (backlog client with 3 threads: SHC/SSH/SCC only)",
-    "thorough": "async: sequences <= 5 calls, every call at every boundary; threads: <= 4 threads, deviation bound 3 (2 threads, SHC/SSH/SCC) / 2",
+    "thorough": "async: sequences <= 5 calls, every call at every boundary; threads: <= 4 threads, deviation bound 3 (<= 2 threads and S+H+C) / 2 (other 3-thread sets, SSHC, SHHC)",
 }
 
 logging.getLogger("easynetwork").setLevel(logging.CRITICAL + 1)
@@ -492,6 +492,7 @@ def run_async_job(job: dict, res: JobResult) -> None:
             if obs["unhandled"]:
                 res.count("async executions with unhandled loop exceptions")
             res.count("async loop iterations", obs["iterations"])
+            res.count("async executions")
             classes.add(oc)
             if any(ctx.choices):
                 res.nontrivial.add(digest(("async", job["kind"], job["nlisten"], seq, oc, obs["final"], obs["client"])))
@@ -503,7 +504,6 @@ def run_async_job(job: dict, res: JobResult) -> None:
         stats = explore(lambda ctx: run_async(ctx, cfg), bound=bound, check=check, max_runs=job.get("max_runs", 60000))
         res.transitions += stats["points"]
         res.count("async configurations")
-        res.counters["async max choice points per execution"] = max(res.counters.get("async max choice points per execution", 0), stats["max_depth"])
         if stats["cap_hit"]:
             res.caps.append(f"async max_runs {job['kind']} {seq}")
         for b, (ctx, obs) in found.items():
@@ -514,7 +514,7 @@ def run_async_job(job: dict, res: JobResult) -> None:
                 f"Async{job['kind'].upper()}NetworkServer listeners={job['nlisten']} calls={seq} ({_outcome_class(obs)}): {b}; final={obs['final']} choices={ctx.choices}",
                 {"part": "async", "cfg": cfg, "choices": list(ctx.choices), "labels": [p[1] for p in ctx.points]},
             ))
-        if len(res.samples) < 3 and len(seq) >= 3 and len(classes) > 1:
+        if job["chunk"] == 0 and job["nlisten"] == 1 and not res.samples and len(seq) >= 3 and len(classes) > 1:
             res.samples.append({"part": "async", "kind": job["kind"], "calls": seq, "executions": stats["runs"], "deviation_bound": bound,
                                 "distinct_outcomes": sorted(classes)[:6]})
 
@@ -849,8 +849,8 @@ def thread_configs(tier: str) -> list[dict]:
     two = ["SS", "SH", "SC", "HC", "NH", "NC", "NS"]
     three = ["SHC", "SSH", "SSC", "SHH", "SCC", "NHC"]
     three_alt = ["CHS", "HSS", "CSS", "HHS", "CCS", "CHN"]  # the same sets with the opposite default priority
-    deep = ("SHC", "SSH", "SCC")  # thorough: bound 3
-    four = ["SSHC", "SHHC", "SHCC", "SSHH"]
+    deep = ("SHC", "SSH", "SCC")  # quick: the sets that also get the backlog client
+    four = ["SSHC", "SHHC"]
     out = []
     for kind in ("tcp", "udp"):
         for client in (0, 1):
@@ -859,7 +859,7 @@ def thread_configs(tier: str) -> list[dict]:
             for m in three:
                 if quick and client and m not in deep:
                     continue  # quick: the backlog client only with SHC / SSH / SCC
-                out.append({"kind": kind, "ops": m, "client": client, "bound": 3 if (not quick and client == 0 and m in deep) else 2})
+                out.append({"kind": kind, "ops": m, "client": client, "bound": 3 if (not quick and client == 0 and m == "SHC") else 2})
         for m in three_alt:
             if quick and m not in ("CHS", "HSS"):
                 continue
@@ -902,7 +902,8 @@ def run_threads_job(job: dict, res: JobResult) -> None:
         res.count("threads free switches", obs["free_switches"])
         if obs["fair_yields"]:
             res.count("threads fairness yields", obs["fair_yields"])
-        res.counters["threads max scheduling points per execution"] = max(res.counters.get("threads max scheduling points per execution", 0), obs["steps"])
+        res.count("threads executions")
+        res.count("threads executions with %d threads" % len(job["ops"]))
         classes.add(oc)
         if any(ctx.choices):
             res.nontrivial.add(digest((what, oc, obs["quiescent"], obs["final"])))
@@ -940,7 +941,7 @@ def run_threads_job(job: dict, res: JobResult) -> None:
             f"parked={obs['parked']} quiescent={obs['quiescent']} choices={ctx.choices}",
             {"part": "threads", "cfg": cfg, "choices": list(ctx.choices), "labels": [p[1] for p in ctx.points]},
         ))
-    if job["slice"] == 0 and len(job["ops"]) >= 3 and len(res.samples) < 3:
+    if job["slice"] == 0 and job["ops"] in ("SHC", "NHC") and job["client"] == 0 and not res.samples:
         res.samples.append({"part": "threads", "kind": job["kind"], "threads": job["ops"], "backlog_client": job["client"],
                             "preemption_bound": bound, "outcomes_in_this_slice": sorted(classes)[:6]})
 
@@ -951,19 +952,7 @@ def run_threads_job(job: dict, res: JobResult) -> None:
 
 def jobs(tier: str) -> list[dict]:
     out: list[dict] = []
-    seqs = async_sequences(tier)
-    # longest first (they dominate the cost), dealt round-robin into chunks
-    seqs.sort(key=lambda s: (-len(s), s))
-    nchunks = 12 if tier == "quick" else 60
-    for kind in ("tcp", "udp"):
-        for nlisten in (1, 2):
-            chunks: list[list[str]] = [[] for _ in range(nchunks)]
-            for i, s in enumerate(seqs):
-                chunks[i % nchunks].append(s)
-            for k, ch in enumerate(chunks):
-                if ch:
-                    # bound = number of calls: every call at every boundary (complete for these sequences)
-                    out.append({"part": "async", "kind": kind, "nlisten": nlisten, "seqs": ch, "bound": 5, "tier": tier, "chunk": k})
+    tj: list[dict] = []
     for cfg in thread_configs(tier):
         n = len(cfg["ops"])
         if n == 1:
@@ -975,7 +964,23 @@ def jobs(tier: str) -> list[dict]:
         else:
             parts = 24
         for part in range(parts):
-            out.append({"part": "threads", **cfg, "slices": parts, "slice": part, "tier": tier})
+            tj.append({"part": "threads", **cfg, "slices": parts, "slice": part, "tier": tier})
+    # the longest jobs first: many threads / high bound
+    tj.sort(key=lambda j: (-len(j["ops"]), -j["bound"]))
+    out.extend(tj)
+    seqs = async_sequences(tier)
+    # longest first (they dominate the cost), dealt round-robin into chunks
+    seqs.sort(key=lambda s: (-len(s), s))
+    nchunks = 12 if tier == "quick" else 60
+    for kind in ("tcp", "udp"):
+        for nlisten in (1, 2):
+            chunks: list[list[str]] = [[] for _ in range(nchunks)]
+            for i, s in enumerate(q for q in seqs if nlisten == 1 or len(q) <= 4):
+                chunks[i % nchunks].append(s)
+            for k, ch in enumerate(chunks):
+                if ch:
+                    # bound = number of calls: every call at every boundary (complete for these sequences)
+                    out.append({"part": "async", "kind": kind, "nlisten": nlisten, "seqs": ch, "bound": 5, "tier": tier, "chunk": k})
     return out
 
 
